@@ -162,6 +162,27 @@ def processStep (st : DState) (si : StepIn) : DState × String := Id.run do
   -- C19: a non-deposit op never debits its sender
   if !isDepositOp si.op then
     if !walletsKept cur pw (fun y => some y == sender && y != cur.self) then orc := orc ++ ["o19"]
+  -- C04: records filed under somebody other than the acting wallet are untouched, except the
+  -- finalized listing (and nothing else) that a purchase takes
+  let actorOf : Option Nat := match si.op with
+    | .exec s _ (.receive (.valid u) _ _) => if cur.isHonest20 s then some u else some s
+    | .exec s _ (.receiveNft (.valid u) _ _) => if cur.isHonest721 s then some u else some s
+    | .exec s _ _ => some s
+    | .send20 _ s _ _ => some s
+    | .send721 _ s _ _ => some s
+    | _ => none
+  if isForgedHook cur si.op == none then
+    match actorOf with
+    | some actor =>
+      let boughtLid : Option Nat := match si.op with | .exec _ _ (.buy lid _) => some lid | _ => none
+      let lOk := cur.mkt.listings.all (fun p =>
+        p.1.1 == actor || alookup p.1 pw.mkt.listings == some p.2 ||
+        (boughtLid == some p.2.id && p.2.status == .finalized))
+      let bOk := cur.mkt.buckets.all (fun p => p.1.1 == actor || alookup p.1 pw.mkt.buckets == some p.2)
+      if !(lOk && bOk) then orc := orc ++ ["o04r"]
+    | none =>
+      if !(canonListings cur.mkt.listings == canonListings pw.mkt.listings &&
+           canonBuckets cur.mkt.buckets == canonBuckets pw.mkt.buckets) then orc := orc ++ ["o04r"]
   if !monotone08 cur pw then orc := orc ++ ["o08"]
   if !(subsetNats cur.mkt.listingUsed pw.mkt.listingUsed && subsetNats cur.mkt.bucketUsed pw.mkt.bucketUsed) then
     orc := orc ++ ["o09m"]
@@ -186,7 +207,11 @@ def processStep (st : DState) (si : StepIn) : DState × String := Id.run do
     match si.op with
     | .exec _ _ (.buy lid bid) =>
       if st.sold.contains lid then orc := orc ++ ["o03"]
-      if !buyOracle cur pw lid bid then orc := orc ++ ["o11"]
+      let bo := buyOracle cur pw lid bid
+      if bo.contains "f" then orc := orc ++ ["o06f"]
+      if bo.contains "w" then orc := orc ++ ["o10w"]
+      if bo.contains "h" then orc := orc ++ ["o11h"]
+      if bo.contains "x" then orc := orc ++ ["o03x"]
       if adopt then
         let lf := match findById lid pw.mkt.listings with | some (_, l) => l.fee | none => none
         let bf := match pw.mkt.buckets.find? (fun p => decide (p.1.2 = bid)) with | some (_, b) => b.fee | none => none
@@ -210,6 +235,25 @@ def processStep (st : DState) (si : StepIn) : DState × String := Id.run do
       if adopt then st' := { st' with crB := id :: st'.crB }
     | none => pure ()
   if adopt && !ghostOk pw st'.charged then orc := orc ++ ["o10"]
+  -- C10: the pool messages of a response are exactly the recorded fees that leave the records
+  if io.ok && si.fault.isNone then
+    let expectPool : Option (List (List Nat)) := match si.op with
+      | .exec _ _ (.withdrawPurchased lid) =>
+        (match findById lid cur.mkt.listings with
+         | some (_, l) => some (match l.fee with | some f => [[4, cur.self, f.key, f.amount]] | none => [])
+         | none => none)
+      | .exec _ _ (.removeBucket bid) =>
+        (match cur.mkt.buckets.find? (fun (p : (Nat × Nat) × Bucket) => decide (p.1.2 = bid)) with
+         | some (_, b) => some (match b.fee with | some f => [[4, cur.self, f.key, f.amount]] | none => [])
+         | none => none)
+      | .exec _ _ (.buy _ bid) =>
+        (match cur.mkt.buckets.find? (fun (p : (Nat × Nat) × Bucket) => decide (p.1.2 = bid)) with
+         | some (_, b) => some (match b.fee with | some f => [[4, cur.self, f.key, f.amount]] | none => [])
+         | none => none)
+      | _ => some []
+    match expectPool with
+    | some e => if poolCodes (sortCodes (io.msgs.map implMsgCode)) != sortCodes e then orc := orc ++ ["o10m"]
+    | none => pure ()
   -- C02: acceptance of a purchase is exactly the published terms (on the implementation pre-state)
   match si.op with
   | .exec buyer funds (.buy lid bid) =>
@@ -433,6 +477,12 @@ def processRoy : P String := do
       g.cw20.flatMap (fun c => entries.filterMap (fun e =>
         if c.amount * e.bps / 10000 = 0 then none else some [2, c.key, e.payout, c.amount * e.bps / 10000]))
     if sortCodes expect != sortCodes (ms.map implMsgCode) then orc := orc ++ ["o17m"]
+    -- C11: at most half leaves, at least 1 stays (per entry, position-wise after canonical sort by key)
+    let halfOk (pre post : List Coin) : Bool :=
+      pre.all (fun c => let y := coinAmt post c.key
+        decide (y ≤ coinAmt pre c.key) && decide (2 * (coinAmt pre c.key - y) ≤ coinAmt pre c.key) &&
+        (c.amount == 0 || decide (1 ≤ y)))
+    if !(halfOk g.native g'.native && halfOk g.cw20 g'.cw20) then orc := orc ++ ["o11r"]
     let amax := (g.native ++ g.cw20).foldl (fun m c => max m c.amount) 0
     pure s!"ROY agree={if agree then 1 else 0} O={join orc} S=ok:n{rs.length}:m{ms.length}:{magClass amax}:s{s / 1000}"
 
